@@ -253,15 +253,43 @@ Record tpre (t : tstate) : Prop := {
   tp_dead : t_dead t = []
 }.
 
+(* files added by a step: appended to the directory, with ids drawn from the id counter *)
+Definition appended_files (t t' : tstate) : Prop :=
+  exists added, t_files t' = t_files t ++ added /\
+    Forall (fun f => t_next_id t <= fst f /\ fst f < t_next_id t') added /\
+    NoDup (map fst added) /\ t_next_id t <= t_next_id t'.
+
+Lemma appended_files_refl : forall t, appended_files t t.
+Proof.
+  intro t. exists []. rewrite app_nil_r. repeat split; [constructor|constructor|lia].
+Qed.
+
+Lemma appended_files_trans : forall a b c, appended_files a b -> appended_files b c -> appended_files a c.
+Proof.
+  intros a b c [x [Ex [Fx [Nx Lx]]]] [y [Ey [Fy [Ny Ly]]]]. exists (x ++ y).
+  rewrite Ey, Ex, app_assoc. split; [reflexivity|]. split; [|split; [|lia]].
+  - apply Forall_app. split; eapply Forall_impl; try eassumption; cbn; intros; lia.
+  - rewrite map_app. apply nodup_app_comm.
+    assert (D : forall i, In i (map fst y) -> In i (map fst x) -> False).
+    { intros i Hy Hx. apply in_map_iff in Hy, Hx. destruct Hy as [fy [<- Hy]], Hx as [fx [E Hx]].
+      rewrite Forall_forall in Fx, Fy. apply Fx in Hx. apply Fy in Hy. lia. }
+    clear - Nx Ny D. induction (map fst y) as [|i l IH]; cbn; auto.
+    inversion Ny; subst. constructor.
+    + intro HI. apply in_app_or in HI. destruct HI as [HI|HI]; [contradiction|].
+      eapply D; [left; reflexivity|exact HI].
+    + apply IH; auto. intros j Hj. apply D. right. exact Hj.
+Qed.
+
 Lemma batch_table_spec : forall sz t, tpre t ->
   let t' := batch_table sz t in
   tpre t' /\ t_frozen t' = [] /\ t_buf t' = t_buf t /\ t_meta t' = t_meta t /\
   t_cols t' = t_cols t /\
-  part_rows (t_parts t') = part_rows (t_parts t) ++ t_frozen t.
+  part_rows (t_parts t') = part_rows (t_parts t) ++ t_frozen t /\
+  appended_files t t'.
 Proof.
   intros sz t [[Ht Hi Hn] Hf Hd]. unfold batch_table.
   destruct (t_frozen t) as [|r rows] eqn:Efr.
-  - cbn. rewrite Efr, app_nil_r. repeat split; auto.
+  - cbn. rewrite Efr, app_nil_r. repeat split; auto. apply appended_files_refl.
   - cbn. set (p := {| p_id := t_next_id t; p_off := t_next_off t; p_size := sz; p_rows := r :: rows |}).
     assert (Hfresh : ~ In (t_next_id t) (map p_id (t_parts t))).
     { apply ids_fresh. constructor; auto. }
@@ -273,6 +301,10 @@ Proof.
     + rewrite map_app. apply nodup_app_comm. cbn. constructor; auto.
     + rewrite Hf, store_file_fresh; auto. rewrite map_app. reflexivity.
     + unfold part_rows. rewrite flat_map_app. cbn. rewrite app_nil_r. reflexivity.
+    + exists [(t_next_id t, r :: rows)]. cbn. rewrite Hf, store_file_fresh; auto.
+      repeat split; auto; try lia.
+      * constructor; [cbn; lia|constructor].
+      * constructor; [tauto|constructor].
 Qed.
 
 (* ---------------------------------------------------------------------------------------------- *)
@@ -340,7 +372,7 @@ Lemma compact_spec : forall sz i cols t t',
   tpre t -> t_frozen t = [] ->
   compact true sz i cols t = TVal t' ->
   tmid t' /\ t_buf t' = t_buf t /\ t_meta t' = t_meta t /\ t_cols t' = t_cols t /\
-  part_rows (t_parts t') = part_rows (t_parts t).
+  part_rows (t_parts t') = part_rows (t_parts t) /\ appended_files t t'.
 Proof.
   intros sz i cols t t' [[Ht Hi Hn] Hf Hd] Hfr H. unfold compact in H.
   destruct (skipn i (t_parts t)) as [|first rest] eqn:Esk; [discriminate|].
@@ -383,8 +415,12 @@ Proof.
       * rewrite <- Esplit. exact Hn.
   - exact Hfr.
   - repeat split; auto.
-    rewrite Esplit, !part_rows_app. f_equal. unfold part_rows at 1. cbn [flat_map p_rows p].
-    rewrite app_nil_r. reflexivity.
+    + rewrite Esplit, !part_rows_app. f_equal. unfold part_rows at 1. cbn [flat_map p_rows p].
+      rewrite app_nil_r. reflexivity.
+    + exists [(t_next_id t, part_rows (first :: rest))]. unfold p. proj_simpl.
+      rewrite Hf, store_file_fresh; auto. repeat split; try lia.
+      * constructor; [cbn; lia|constructor].
+      * constructor; [cbn; tauto|constructor].
 Qed.
 
 Lemma tpre_tmid : forall t, tpre t -> t_frozen t = [] -> tmid t.
